@@ -11,9 +11,9 @@ CONSTANTS
   DirAtStart = TRUE
   PersistMkdir = TRUE
   LoaderExact = TRUE
-  RefreshTemp = "leave"
+  RefreshTemp = "delete"
   Faults = {}
   Cleanup = "temp"
-INIT InitR
-NEXT NextR
+SPECIFICATION SpecR
+INVARIANTS Converged
 CHECK_DEADLOCK FALSE
